@@ -185,8 +185,13 @@ def class_worker(part, codes):
     part.tr(len(codes) * 8)
 
 
+REFUSED_STRINGS = ["x,y,z,x", "x+1/0,y,z", "x,y+0.25,z+1/2/3", "a,b,c", "x,y", "-y,x-y,z+1/q", "x,,z", "2x,y,z+"]
+
+
 def spelling_worker(part, codes, max_dev):
     from chmpy.crystal.symmetry_operation import SymmetryOperation
+
+    nth = 0
 
     for code in codes:
         op = symm.decode(code)
@@ -199,6 +204,15 @@ def spelling_worker(part, codes, max_dev):
             if symm.parse_string(s) != op:
                 part.fail("grammar-self-check:%d" % code, "reference grammar produced %r which its own reader maps elsewhere" % s, case)
                 continue
+            # after an error: for every second spelling the parse is preceded by a string the reader refuses (too many / too few
+            # components, a zero denominator, a doubled fraction, unknown letters) - it raises, and the next string is read as if nothing had happened
+            nth += 1
+            if nth % 2 == 0:
+                try:
+                    SymmetryOperation.from_string_code(REFUSED_STRINGS[(nth // 2) % len(REFUSED_STRINGS)])
+                    part.count("refused_string_parsed")
+                except Exception:
+                    pass
             try:
                 o = SymmetryOperation.from_string_code(s)
                 got = int(o.integer_code)
